@@ -180,6 +180,11 @@ func TestVfC15Main(t *testing.T) {
 					rep.Eval()
 					got := get(rfront, rinst, key)
 					wantHit := !mangle || rinst == winst
+					if novalid && rfront != wfront {
+						// with HTTP validation disabled the HTTP front end uses the raw action cache, a
+						// namespace of its own: nothing stored through one front end is visible to the other
+						wantHit = false
+					}
 					k := fmt.Sprintf("C15 main mangling=%v write=%s read=%s", mangle, wfront, rfront)
 					desc := fmt.Sprintf("%s (servers started by main.run): stored via %s under instance %q; read via %s with instance %q", cfgName, wfront, winst, rfront, rinst)
 					switch {
